@@ -16,6 +16,11 @@ C13_OPS = ['prefix_increment', 'prefix_decrement', 'postfix_increment', 'postfix
 C13_SLOW_FIRST = ['add', 'modulus_special_divisors', 'bitwise_xor', 'bitwise_or', 'right_shift', 'divide_special_divisors', 'bitwise_not',
                   'left_shift', 'subtract', 'greater_than', 'bitwise_and', 'minus']
 
+# the fifteen most expensive complete operator harnesses (2 to 5 CPU-minutes each, two thirds of the CPU time of the property): thorough tier only, so that
+# the quick tier stays well inside a 15 minute budget on a loaded machine; every operator family keeps cheaper members in the quick tier
+C13_THOROUGH_ONLY = ['modulus_modular', 'left_shift', 'add', 'divide_special_divisors', 'bitwise_or', 'subtract', 'bitwise_xor', 'inequality',
+                     'divide_modular', 'equality', 'right_shift', 'greater_equal', 'less_equal', 'bitwise_and', 'modulus_special_divisors']
+
 C11_SHAPES = ['c11_shape_or', 'c11_shape_and', 'c11_shape_eq', 'c11_shape_ne', 'c11_shape_lt', 'c11_shape_lt_adjacent', 'c11_shape_le',
               'c11_shape_gt', 'c11_shape_ge', 'c11_prec_or_and', 'c11_prec_and_or', 'c11_prec_and_eq', 'c11_prec_eq_lt', 'c11_prec_lt_eq',
               'c11_assoc_lt_lt', 'c11_assoc_eq_ne', 'c11_assoc_or_or', 'c11_shape_lt_space_eq_is_not_le',
@@ -116,9 +121,9 @@ PROPS = {
         'k_groups': [
             {'module': 'typer/evaluator.rs',
              # longest-running first (the scheduler takes them in this order): 5-6 min each down to 20 s
-             'harnesses': [('c13_op_modulus_modular', 'complete'), ('c13_op_divide_modular', 'complete')]
-                          + [('c13_op_' + o, 'complete') for o in C13_SLOW_FIRST]
-                          + [('c13_op_' + o, 'complete') for o in C13_OPS if o not in C13_SLOW_FIRST and o not in ('multiply', 'divide', 'modulus')]
+             'harnesses': [('c13_op_' + o, 'complete') for o in C13_SLOW_FIRST if o not in C13_THOROUGH_ONLY]
+                          + [('c13_op_' + o, 'complete') for o in C13_OPS if o not in C13_SLOW_FIRST and o not in ('multiply', 'divide', 'modulus')
+                             and o not in C13_THOROUGH_ONLY]
                           + [('c13_op_nonconstant_argument_propagates', 'complete')]
                           # * / %: modular in the std primitive the code delegates to (see the harness module)
                           + [('c13_op_multiply_modular', 'complete')]
@@ -129,6 +134,10 @@ PROPS = {
              'tier': 'quick'},
             {'module': 'ir/ir_types.rs',
              'harnesses': [('c13_to_uint64_is_the_nonnegative_integer_value', 'complete')], 'tier': 'quick'},
+            {'module': 'typer/evaluator.rs',
+             'harnesses': [('c13_op_' + o, 'complete') for o in C13_THOROUGH_ONLY],
+             'kani_args': ['--solver', 'kissat', '--no-assertion-reach-checks'],
+             'tier': 'thorough'},
             {'module': 'typer/evaluator.rs',
              # value-level search for quotient / remainder / product slips (8 to 26 min each): thorough tier
              'harnesses': [('c13_op_multiply_intlit_bounded', 'bounded:untyped literal operands of magnitude < 2^20'),
